@@ -24,6 +24,7 @@ import (
 	"fmt"
 
 	"seata.apache.org/seata-go/pkg/datasource/sql/exec"
+	"seata.apache.org/seata-go/pkg/datasource/sql/parser"
 	"seata.apache.org/seata-go/pkg/datasource/sql/types"
 	"seata.apache.org/seata-go/pkg/tm"
 	"seata.apache.org/seata-go/pkg/util/log"
@@ -52,7 +53,7 @@ func (c *ATConn) QueryContext(ctx context.Context, query string, args []driver.N
 		}()
 	}
 
-	ret, err := c.createNewTxOnExecIfNeed(ctx, func() (types.ExecResult, error) {
+	run := func() (types.ExecResult, error) {
 		executor, err := exec.BuildExecutor(c.res.dbType, c.txCtx.TransactionMode, query)
 		if err != nil {
 			return nil, err
@@ -76,11 +77,28 @@ func (c *ATConn) QueryContext(ctx context.Context, query string, args []driver.N
 				}
 				return types.NewResult(types.WithRows(ret)), nil
 			})
-	})
+	}
+
+	var (
+		ret types.ExecResult
+		err error
+	)
+	if isPlainSelect(query) {
+		// a plain SELECT has no images, no locks and no branch: it needs no statement-scoped local
+		// transaction, whose COMMIT could not be sent anyway while the caller has not read the rows yet
+		ret, err = run()
+	} else {
+		ret, err = c.createNewTxOnExecIfNeed(ctx, run)
+	}
 	if err != nil {
 		return nil, err
 	}
 	return ret.GetRows(), nil
+}
+
+func isPlainSelect(query string) bool {
+	parseContext, err := parser.DoParser(query)
+	return err == nil && parseContext.SQLType == types.SQLTypeSelect
 }
 
 // ExecContext
